@@ -131,6 +131,14 @@ MUTANTS = [
     ("C18-receive-on-block-state", "I3", "receive runs directly on the block state again",
      [(SQ + "ibc/ics20_transfer.rs", "        let ack = match receive_tokens(&mut delta, &msg.packet).await {\n            Ok(()) => {\n                let (state, events) = delta.apply();\n                for event in events {\n                    state.record(event);\n                }\n                TokenTransferAcknowledgement::success()\n            }\n            Err(e) => {\n                drop(delta);\n",
        "        drop(delta);\n        let ack = match receive_tokens(&mut state, &msg.packet).await {\n            Ok(()) => TokenTransferAcknowledgement::success(),\n            Err(e) => {\n", 0)]),
+    ("C08-proof-fields-public", "K9|witness:merkle:fail_proof_literal", "merkle Proof fields made public: proofs can be assembled unchecked",
+     [(MK + "audit.rs",
+       "    pub(super) audit_path: Vec<u8>,\n    pub(super) leaf_index: usize,\n    pub(super) tree_size: NonZeroUsize,\n}\n\nimpl Proof {",
+       "    pub audit_path: Vec<u8>,\n    pub leaf_index: usize,\n    pub tree_size: NonZeroUsize,\n}\n\nimpl Proof {", 0)]),
+    ("C02-transaction-fields-public", "K9|witness:core:fail_transaction_literal", "Transaction fields made public: a body can be paired with a foreign signature",
+     [(CO + "protocol/transaction/v1/mod.rs",
+       "pub struct Transaction {\n    signature: Signature,\n    verification_key: VerificationKey,\n    body: TransactionBody,\n    body_bytes: bytes::Bytes,\n}",
+       "pub struct Transaction {\n    pub signature: Signature,\n    pub verification_key: VerificationKey,\n    pub body: TransactionBody,\n    pub body_bytes: bytes::Bytes,\n}", 0)]),
 ]
 
 REFACTORS = [
